@@ -349,6 +349,23 @@ def replay(ob):
             fails.append({"structure": "graphene sheets 6.0 A apart, cluster_threshold=5.0", "observed": "class %s, expected Class3D (sheets bonded: 4.48 A <= 5.0 A)" % type(r).__name__})
     except Exception as e:  # noqa
         fails.append({"structure": "graphene sheets 6.0 A apart, cluster_threshold=5.0", "observed": "%s: %s" % (type(e).__name__, e)})
+    # a sheet whose region covers just under a non-integral min_coverage * n: 5x5 graphene (50 C) + 10 H adatoms, min_coverage 0.84 (50.4 atoms)
+    try:
+        from ase.build import graphene as _gr2
+        rng_ = np.random.default_rng(0)
+        sheet = _gr2(vacuum=10).repeat((5, 5, 1))
+        sheet.set_pbc(True)
+        sc = rng_.random((10, 3)); sc[:, 2] = 0
+        pa = sc @ np.array(sheet.get_cell())
+        pa[:, 2] = sheet.get_positions()[:, 2].mean() + 1.5 + 0.6 * rng_.random(10)
+        deco = sheet + Atoms(["H"] * 10, positions=pa)
+        clf2 = Classifier(min_coverage=0.84)
+        r = clf2.classify(deco)
+        if isinstance(r, (C.Surface, C.Material2D)) and len(set(r.basis_indices)) / len(deco) < 0.84:
+            fails.append({"structure": "5x5 graphene + 10 H adatoms (default_rng(0)), min_coverage=0.84", "observed": "%s with %d basis atoms of %d: coverage %.4f below min_coverage" % (
+                type(r).__name__, len(set(r.basis_indices)), len(deco), len(set(r.basis_indices)) / len(deco))})
+    except Exception as e:  # noqa
+        fails.append({"structure": "decorated graphene sheet", "observed": "%s: %s" % (type(e).__name__, e)})
     for name, at in extra + structures():
         if name == "degenerate cell":
             continue
